@@ -37,6 +37,7 @@ CLAUSES = {
     "rendering of the phrase / absolute date text": "tie only: render is compared with the implementation, no theorem about month names",
 }
 PARALLEL = True
+CASE_TIMEOUT = 180   # wall-clock watchdog per case; generous because the machine may be heavily loaded
 LEVEL_NOTE = "model follows the code after fix commits 1470d98 (friendly_number sign) and b9430ab (future clamp)"
 
 EPOCH = datetime.datetime(1970, 1, 1, tzinfo=datetime.timezone.utc)
